@@ -1375,6 +1375,10 @@ static void mc_free(void *p, void *pc)
   if (!p)
     return;
   if (det_on && me >= 0 && !in_rt) {
+    // the freeing thread's own buffered stores precede the free in program order and a store buffer is
+    // FIFO (the allocator's own stores and locked operations come after them): they commit first
+    vw_flush();
+    sb_flush();
     size_t n = malloc_usable_size(p);
     {
       RtGuard g;
